@@ -32,19 +32,23 @@ ASSUMPTIONS = [
     'token, as it silently does after a `return`) is outside C14 (that is C07 / C08); such runs are compared with '
     'the model but not judged',
 ]
-PARTIAL = ('The token-level clause is a theorem (C14_tokens_spec: tokens of the cart = package preamble ++ per table entry '
-           '(header ++ echoed package ++ end) ++ require() preamble ++ the main program\'s tokens, unchanged; reference '
-           'tokenizer, concrete stack, NO hypothesis about lexer, chunking, echo or constants) for a main program of bytes '
-           'in the dialect and table entries meeting three per-entry conditions (header line and echoed code in the dialect, '
-           'echoed lines of bytes all ending in LF). C14_pkg_conditions_unstripped proves those conditions, and that the '
-           'echoed code has exactly the file\'s tokens, for packages embedded with {use_game_loop=true} from byte files of '
-           'the dialect that are empty or end in a newline. RESIDUAL, visible in the statements: (1) a package whose file '
-           'lacks a final newline (build.py adds a separate newline line; the lexer stack\'s chunking theorem does not '
-           'cover a line without LF followed by it); (2) packages embedded WITHOUT their game loop (the default): that the '
-           're-lexed text is in the dialect, ends in a newline and has the file\'s tokens minus the top-level game-loop '
-           'definitions is only proved relative to a hypothesis (C14_block_tokens_partial; it needs the parser\'s statement '
-           'ranges to agree with the reference description); unconditionally proved is that stripping only removes tokens '
-           '(C14_strip_only_removes). Both residues are checked on every run by the extracted monitor holds_C14. '
+PARTIAL = ('The token-level clause is a theorem (C14_tokens_spec_any_newline: tokens of the cart = package preamble ++ per '
+           'table entry (header ++ echoed package ++ end) ++ require() preamble ++ the main program\'s tokens, unchanged; '
+           'reference tokenizer, concrete stack, NO hypothesis about lexer, chunking, echo or constants) for a main program '
+           'of bytes in the dialect and table entries meeting per-entry conditions (header line and echoed code in the '
+           'dialect, echoed lines of bytes ending in LF except possibly the last - a package whose code lacks a final '
+           'newline is covered: Proofs/LexerChunkNl.v proves that the separate newline line build.py inserts is lexed as if '
+           'glued to the text). C14_pkg_conditions_unstripped_any_newline proves those conditions, and that the echoed code '
+           'has exactly the file\'s tokens, for packages embedded with {use_game_loop=true} from ANY byte file of the '
+           'dialect. RESIDUAL, visible in the statements: packages embedded WITHOUT their game loop (the default). The '
+           'lexer-stack half is proved (C14_strip_lexical: replacing runs of whole tokens, each starting at a word, by a space '
+           'keeps every other significant token of a dialect text; C14_stripped_pkg_partial: the re-lexed package is in the '
+           'dialect, its echoed lines are bytes ending in LF, its token views are those of the file\'s tokens outside the '
+           'ranges strip_stats cuts). What stays HYPOTHESES, both about the parser\'s statement ranges and both decidable '
+           '(ranges_okb; an equality of token lists): the ranges of the game-loop statements are non-empty, ordered and start '
+           'at a word token, and the tokens outside them are those Spec/RequireSpec.spec_strip keeps '
+           '(C14_stripped_pkg_spec_partial). C14_strip_only_removes is unconditional. The residue is checked on every run by '
+           'the extracted monitor holds_C14. '
            'C14_structure_bytes / C14_unstripped_block assume a BYTE-faithful echo, which picotool\'s lexer has only for '
            'sources whose quoted strings are spelled canonically (C06: other strings are re-spelled).')
 CLAIM = dict(
@@ -61,7 +65,11 @@ CLAIM = dict(
           "exactly the fuel-free depth-first relation Run). Token-level clause: C14_tokens_spec (no lexer / chunking / echo "
           "hypothesis left: uses C14_reference_chunking, C14_echo_predicate_suffices, C14_echo_views, C14_echo_lines_good, "
           "which rest on C06 / C07's theorems about the lexer model) with per-entry conditions that "
-          "C14_pkg_conditions_unstripped proves for {use_game_loop=true} packages; partial in two named residues (see partial). Tie: correspondence of the extracted model (full lexer+parser+walker stack) with the real "
+          "C14_pkg_conditions_unstripped proves for {use_game_loop=true} packages; C14_tokens_spec_any_newline / "
+          "C14_pkg_conditions_unstripped_any_newline / C14_prepended_lines_chunking: the same without any condition on the "
+          "final newline of a package (the separate newline line build.py inserts is lexed as if glued to the text); "
+          "C14_strip_lexical / C14_stripped_pkg_partial / C14_stripped_pkg_spec_partial: packages embedded without their game "
+          "loop, relative to two decidable hypotheses about the parser's statement ranges (see partial). Tie: correspondence of the extracted model (full lexer+parser+walker stack) with the real "
           "`p8tool build` on generated package graphs (code bytes of OUT.p8, error class), RequireWalker alone on "
           "every generated file, and the extracted instance predicate holds_C14 (Spec/ + Base/ only: reference "
           "tokenizer, token-level require / game-loop / load-path description written from the README) on the real "
